@@ -254,11 +254,45 @@ type rmwSite struct {
 
 func isStateGet(ci ssa.CallInstruction) bool {
 	id := ssax.FuncID(ssax.CalleeObj(ci))
-	return strings.HasSuffix(id, "client/modules/state.(State).Get") || strings.HasSuffix(id, "client/modules/state.(State).GetOrError")
+	if strings.HasSuffix(id, "client/modules/state.(State).Get") || strings.HasSuffix(id, "client/modules/state.(State).GetOrError") {
+		return true
+	}
+	return stateLikeCall(ci, "Get", "GetOrError")
 }
 func isStateSet(ci ssa.CallInstruction) bool {
 	id := ssax.FuncID(ssax.CalleeObj(ci))
-	return strings.HasSuffix(id, "client/modules/state.(State).Set")
+	if strings.HasSuffix(id, "client/modules/state.(State).Set") {
+		return true
+	}
+	return stateLikeCall(ci, "Set")
+}
+
+// stateLikeCall: a call of Get/Set through a NARROWER interface that a module package declares in front of the state
+// store (`type stateStore interface{ Get(string) ([]byte, error); Set(string, []byte) error }`): every method of the
+// interface is one of state.State's, with the store's key/value signature.
+func stateLikeCall(ci ssa.CallInstruction, names ...string) bool {
+	cc := ci.Common()
+	if !cc.IsInvoke() || cc.Method == nil || cc.Method.Pkg() == nil || !strings.HasPrefix(cc.Method.Pkg().Path(), load.Module) {
+		return false
+	}
+	okName := false
+	for _, n := range names {
+		if cc.Method.Name() == n {
+			okName = true
+		}
+	}
+	it, isIface := cc.Value.Type().Underlying().(*types.Interface)
+	if !okName || !isIface || it.NumMethods() == 0 || it.NumMethods() > 8 {
+		return false
+	}
+	stateMethods := map[string]bool{"Get": true, "GetOrError": true, "Set": true, "Delete": true, "Reset": true, "SaveOffset": true, "LoadOffset": true, "NewStateFromOld": true}
+	for i := 0; i < it.NumMethods(); i++ {
+		if !stateMethods[it.Method(i).Name()] {
+			return false
+		}
+	}
+	sig := cc.Method.Type().(*types.Signature)
+	return sig.Params().Len() >= 1 && sig.Params().At(0).Type().String() == "string"
 }
 
 // keyOf renders the durable key argument canonically.
@@ -269,7 +303,7 @@ func keyOf(ci ssa.CallInstruction) string {
 
 func c14RMW(c *Ctx, roots map[string][]*ssa.Function) { c14RMWAs(c, roots, "C14/R2", "") }
 
-// c14RMWAs runs the read-modify-write rule under the given rule id; `only` restricts it to one durable key (used by the
+// c14RMWAs runs the read-modify-write rule under the given rule id; `only` restricts it to the durable key that the named function read-modify-writes (used by the
 // properties that rest on the all-rounds blob being updated atomically: C07, C19).
 func c14RMWAs(c *Ctx, roots map[string][]*ssa.Function, rule, only string) {
 	r := c.R
@@ -340,10 +374,19 @@ func c14RMWAs(c *Ctx, roots map[string][]*ssa.Function, rule, only string) {
 		}
 	}
 	for _, k := range sortedKeys(groups) {
-		if only != "" && k != only {
-			continue
-		}
 		g := groups[k]
+		if only != "" {
+			// (the group is chosen by the function that rewrites the blob, not by how the key expression is spelled)
+			has := false
+			for _, st := range g.sites {
+				if st.fn.Name() == only {
+					has = true
+				}
+			}
+			if !has {
+				continue
+			}
+		}
 		var names []string
 		for _, s := range g.sites {
 			names = append(names, s.fn.Name())
